@@ -11,7 +11,7 @@
       per node (MPI_Win_allocate_shared on the intranode communicator), written by the rank with intrarank 0.
       allgather / prefix / memcpy are compositions of the collective specifications below.
    3. WRITE PROTOCOL.  write_start / write_end of the window flavours as a transition system over the ranks of one
-      node (window locks taken with MPI_MODE_NOCHECK never block; the barrier of write_end does). *)
+      node (window locks taken with MPI_MODE_NOCHECK never block; the barriers of write_start and write_end do). *)
 From Coq Require Import ZArith Arith List Bool PeanoNat.
 Import ListNotations.
 
@@ -128,87 +128,102 @@ Section Shmem.
 End Shmem.
 
 (* ---- the lock / barrier protocol of the window flavours on one node ------------------------------------- *)
-(* phases of a rank: holding the shared lock and reading; between write_start and write_end as the writer
-   (exclusive lock) or as a non-writer (no lock); waiting in the barrier of write_end *)
-Inductive phase := Reading | Writer | NonWriter | InBarrier.
+(* sc_shmem_write_start_window: unlock the shared lock, barrier on the node, then intranode rank 0 takes the exclusive lock;
+   sc_shmem_write_end_window: the writer unlocks, barrier on the node, everybody takes the shared lock again.  Both locks are
+   taken with MPI_MODE_NOCHECK ("no conflicting lock is held"): they never block, a false assertion is recorded in `conflict`.
+   phases of a rank: holding the shared lock and reading; inside write_start (shared lock released, waiting in its barrier);
+   between write_start and write_end as the writer (exclusive lock) or as a non-writer (no lock); waiting in the barrier of
+   write_end.
+   events: WS_arrive i  rank i calls write_start: unlocks and enters the barrier
+           WS_leave i   that barrier is complete for rank i (every rank of the node has entered it): write_start returns, rank 0
+                        with the exclusive lock
+           WR i v       rank i stores v into the array
+           WE_arrive i  rank i calls write_end: unlocks if it is the writer, enters the barrier
+           WE_leave i   that barrier is complete for rank i: shared lock, write_end returns
+   `pstep_gen wait`: wait = true is the code as it is; wait = false is libsc BEFORE the repair of finding F-C14b, whose write_start
+   had no barrier (WS_leave did not wait for anybody): kept as `pstep_old` for the regression theorems. *)
+Inductive phase := Reading | InStart | Writer | NonWriter | InBarrier.
 Inductive lock := NoLock | SharedLock | ExclLock.
 
 Record pstate := mk_ps {
   ph : nat -> phase;            (* per intranode rank *)
   lk : nat -> lock;
-  arrived : nat -> nat;         (* barriers (write_end calls) entered so far *)
-  left_ : nat -> nat;           (* barriers left so far = write_end calls returned from *)
+  sarrived : nat -> nat;        (* barriers of write_start entered so far = write_start calls begun *)
+  sleft : nat -> nat;           (* barriers of write_start left so far = write_start calls returned from *)
+  arrived : nat -> nat;         (* barriers of write_end entered so far = write_end calls begun *)
+  left_ : nat -> nat;           (* barriers of write_end left so far = write_end calls returned from *)
   mem : Z;                      (* content of the shared array (abstract) *)
-  conflict : bool;              (* some exclusive lock was taken while another rank held a lock on the window *)
-  wround : nat                  (* the writer's round in which `mem` was stored last (0: never); book-keeping only *)
+  conflict : bool;              (* some lock was taken (MPI_MODE_NOCHECK) while a conflicting lock was held *)
+  wround : nat;                 (* the writer's round in which `mem` was stored last (0: never); book-keeping only *)
+  snap : nat -> Z               (* the array as the writer left it when it entered its k-th write_end (snap 0: initially); book-keeping only *)
 }.
 Definition upd {B} (f : nat -> B) (i : nat) (v : B) : nat -> B := fun j => if j =? i then v else f j.
 
 Inductive event :=
-| WS (i : nat)                  (* sc_shmem_write_start returns on rank i *)
-| WR (i : nat) (v : Z)          (* rank i stores v into the array *)
-| WE_arrive (i : nat)           (* write_end: unlock if writer, enter the barrier *)
-| WE_leave (i : nat).           (* the barrier completes for rank i, shared lock again, write_end returns *)
+| WS_arrive (i : nat)
+| WS_leave (i : nat)
+| WR (i : nat) (v : Z)
+| WE_arrive (i : nat)
+| WE_leave (i : nat).
 
 Definition others_hold (n : nat) (lk : nat -> lock) (i : nat) : bool :=
   existsb (fun j => negb (j =? i) && match lk j with NoLock => false | _ => true end) (seq 0 n).
+Definition others_excl (n : nat) (lk : nat -> lock) (i : nat) : bool :=
+  existsb (fun j => negb (j =? i) && match lk j with ExclLock => true | _ => false end) (seq 0 n).
+Definition barrier_done (n : nat) (cnt : nat -> nat) (i : nat) : bool := forallb (fun j => cnt i <=? cnt j) (seq 0 n).
 
-(* one step; None = the event is not enabled (the caller violates the calling convention, or the barrier is not
-   complete yet).  `n` ranks on the node; intranode rank 0 is the writer. *)
-Definition pstep (n : nat) (s : pstate) (e : event) : option pstate :=
+Definition pstep_gen (wait : bool) (n : nat) (s : pstate) (e : event) : option pstate :=
   match e with
-  | WS i =>
-    if (i <? n) && match ph s i with Reading => true | _ => false end then
+  | WS_arrive i =>
+    if (i <? n) && match ph s i with Reading => true | _ => false end
+    then Some (mk_ps (upd (ph s) i InStart) (upd (lk s) i NoLock) (upd (sarrived s) i (S (sarrived s i))) (sleft s)
+                     (arrived s) (left_ s) (mem s) (conflict s) (wround s) (snap s))
+    else None
+  | WS_leave i =>
+    if (i <? n) && match ph s i with InStart => true | _ => false end && (negb wait || barrier_done n (sarrived s) i) then
       if i =? 0
-      then Some (mk_ps (upd (ph s) i Writer) (upd (lk s) i ExclLock) (arrived s) (left_ s) (mem s)
-                       (conflict s || others_hold n (lk s) i) (wround s))
-      else Some (mk_ps (upd (ph s) i NonWriter) (upd (lk s) i NoLock) (arrived s) (left_ s) (mem s) (conflict s) (wround s))
+      then Some (mk_ps (upd (ph s) i Writer) (upd (lk s) i ExclLock) (sarrived s) (upd (sleft s) i (S (sleft s i)))
+                       (arrived s) (left_ s) (mem s) (conflict s || others_hold n (lk s) i) (wround s) (snap s))
+      else Some (mk_ps (upd (ph s) i NonWriter) (lk s) (sarrived s) (upd (sleft s) i (S (sleft s i)))
+                       (arrived s) (left_ s) (mem s) (conflict s) (wround s) (snap s))
     else None
   | WR i v =>
     if (i <? n) && match ph s i with Writer => true | _ => false end
-    then Some (mk_ps (ph s) (lk s) (arrived s) (left_ s) v (conflict s) (S (arrived s 0))) else None
+    then Some (mk_ps (ph s) (lk s) (sarrived s) (sleft s) (arrived s) (left_ s) v (conflict s) (S (arrived s 0)) (snap s))
+    else None
   | WE_arrive i =>
     if (i <? n) && match ph s i with Writer | NonWriter => true | _ => false end
-    then Some (mk_ps (upd (ph s) i InBarrier) (upd (lk s) i NoLock) (upd (arrived s) i (S (arrived s i))) (left_ s)
-                     (mem s) (conflict s) (wround s))
+    then Some (mk_ps (upd (ph s) i InBarrier) (upd (lk s) i NoLock) (sarrived s) (sleft s)
+                     (upd (arrived s) i (S (arrived s i))) (left_ s) (mem s) (conflict s) (wround s)
+                     (if i =? 0 then upd (snap s) (S (arrived s 0)) (mem s) else snap s))
     else None
   | WE_leave i =>
-    if (i <? n) && match ph s i with InBarrier => true | _ => false end
-       && forallb (fun j => arrived s i <=? arrived s j) (seq 0 n)
-    then Some (mk_ps (upd (ph s) i Reading) (upd (lk s) i SharedLock) (arrived s) (upd (left_ s) i (S (left_ s i)))
-                     (mem s) (conflict s) (wround s))
+    if (i <? n) && match ph s i with InBarrier => true | _ => false end && barrier_done n (arrived s) i
+    then Some (mk_ps (upd (ph s) i Reading) (upd (lk s) i SharedLock) (sarrived s) (sleft s)
+                     (arrived s) (upd (left_ s) i (S (left_ s i))) (mem s) (conflict s || others_excl n (lk s) i) (wround s) (snap s))
     else None
   end.
 
+Definition pstep := pstep_gen true.
+Definition pstep_old := pstep_gen false.
+
 Definition pinit (v : Z) : pstate :=
-  mk_ps (fun _ => Reading) (fun _ => SharedLock) (fun _ => 0) (fun _ => 0) v false 0.
+  mk_ps (fun _ => Reading) (fun _ => SharedLock) (fun _ => 0) (fun _ => 0) (fun _ => 0) (fun _ => 0) v false 0 (fun _ => v).
 
-Fixpoint prun (n : nat) (s : pstate) (es : list event) : option pstate :=
+Fixpoint prun_gen (wait : bool) (n : nat) (s : pstate) (es : list event) : option pstate :=
   match es with
   | [] => Some s
-  | e :: t => match pstep n s e with Some s' => prun n s' t | None => None end
+  | e :: t => match pstep_gen wait n s e with Some s' => prun_gen wait n s' t | None => None end
   end.
-
-(* the calling convention under which the rounds do not overlap: the writer passes write_start only after every rank
-   of the node has returned from the previous write_end (e.g. the callers synchronise between their last read and
-   the next write_start).  Everything else is as above. *)
-Definition all_returned (n : nat) (s : pstate) : bool := forallb (fun j => left_ s j =? arrived s 0) (seq 0 n).
-Definition pstep_sync (n : nat) (s : pstate) (e : event) : option pstate :=
-  match e with
-  | WS 0 => if all_returned n s then pstep n s e else None
-  | _ => pstep n s e
-  end.
-Fixpoint prun_sync (n : nat) (s : pstate) (es : list event) : option pstate :=
-  match es with
-  | [] => Some s
-  | e :: t => match pstep_sync n s e with Some s' => prun_sync n s' t | None => None end
-  end.
+Definition prun := prun_gen true.
+Definition prun_old := prun_gen false.
+Definition WS (i : nat) : list event := [WS_arrive i; WS_leave i].
 
 (* ---- per-rank sequence of MPI calls (compared with the trace of the real code) ---------------------------- *)
 (* call codes: 1 Allgather(world) 2 Scan(world) 3 Gather(intranode, root 0) 4 Allgather(internode) 5 Barrier(intranode)
                6 Win_unlock 7 Win_lock exclusive 8 Win_lock shared *)
 Definition calls_write_start (shared writer : bool) : list nat :=
-  if shared then 6 :: (if writer then [7] else []) else [].
+  if shared then 6 :: 5 :: (if writer then [7] else []) else [].
 Definition calls_write_end (shared writer : bool) : list nat :=
   if shared then (if writer then [6] else []) ++ [5; 8] else [].
 Definition calls_allgather (shared writer : bool) : list nat :=
